@@ -148,6 +148,31 @@ def _run_variant(args):
     }
 
 
+def _run_reference(args):
+    """Executed in a grandchild fork: marginals over real inputs against the
+    closed form of a quadratic fitted through point evaluations (sim/refint.py)."""
+    from sim import execs, oracle, refint
+
+    prog, mode, family = args
+    oracle.set_carrier(family)
+    sched, force = MODES[mode]
+    env = {}
+    execs.run_program(prog, sched, force, env=env)
+    stats = {"reference_marginals": 0}
+    for op in prog:
+        if op["op"] != "reduce_real" or op["fn"] != "logaddexp" or op["out"] not in env or op["a"] not in env:
+            continue
+        try:
+            out = execs.force_value(env[op["out"]], force)
+        except Exception:  # noqa
+            continue
+        stats["reference_marginals"] += 1
+        msg = refint.check_marginal(env[op["a"]], out, list(op["vars"]), stats)
+        if msg:
+            return {"stats": stats, "message": "%s = reduce(logaddexp, %s, %s) under mode %s: %s" % (op["out"], op["a"], op["vars"], mode, msg), "root": op["out"]}
+    return {"stats": stats, "message": None}
+
+
 def enumerate_program(payload):
     from sim import oracle
     from sim.execs import compare_packed
@@ -199,6 +224,26 @@ def enumerate_program(payload):
                 "replay_variant": {"record": True},
             }
         )
+    if any(op["op"] == "reduce_real" for op in prog) and payload.get("only") in (None, "reference"):
+        ref = fork_call(_run_reference, ((prog, mode, payload.get("family")),), timeout=120)
+        stats["runs"] += 1
+        if ref.get("status") == "ok":
+            for k, v in ref["res"]["stats"].items():
+                stats[k] = stats.get(k, 0) + v
+            if ref["res"]["message"]:
+                violations.append(
+                    {
+                        "invariant": "marginal-differs-from-reference",
+                        "message": ref["res"]["message"],
+                        "root": ref["res"]["root"],
+                        "variant": "reference",
+                        "fingerprint": "marginal-differs-from-reference",
+                    }
+                )
+        else:
+            stats["variant_errors"] += 1
+    if payload.get("only") == "reference":
+        return out
     if not payload.get("enumerate", True) or not stats["baseline_ok"]:
         return out
 
@@ -401,6 +446,12 @@ def summarize(jobs, results, tier):
         "firings_in_undisturbed_runs": tot.get("firings", 0),
         "faults_fired_by_kind": {"DECLINE": tot.get("decline_fired", 0), "DISABLE_IF": tot.get("disable_fired", 0)},
         "verdicts": {"PASS": tot.get("pass", 0), "DECLINED": tot.get("declined", 0), "variant_fork_errors": tot.get("variant_errors", 0)},
+        "reference_model_marginals": {
+            "marginals_checked": tot.get("reference_marginals", 0),
+            "points_compared_with_closed_form": tot.get("reference_points", 0),
+            "points_where_model_is_silent": tot.get("reference_silent", 0),
+            "points_where_funsor_raised": tot.get("reference_errors", 0),
+        },
         "cross_world": dict(CROSS_STATS),
         "rules_fired": len(fired),
         "rules_fired_nonidentity": len(nonid),
